@@ -197,9 +197,13 @@ int main(int argc, char **argv)
     'cxx': COMMON_MAIN + r"""
 static std::ifstream *g_streams[256]; static int g_nstreams;
 static std::ifstream *open_stream(const char *p) { std::ifstream *f = new std::ifstream(p, std::ios::binary); if (g_nstreams < 256) g_streams[g_nstreams++] = f; return f; }
+/* mode m: every source goes through ONE stream object, refilled after it ran dry (clear + str) */
+static std::stringstream g_ss;
+static std::istream *refill(const char *p) { int n; char *d = slurp(p, &n); g_ss.clear(); g_ss.str(std::string(d, (size_t) n)); free(d); return &g_ss; }
 int yyFlexLexer::yywrap()
 {
     int k = next_file();
+    if (k >= 0 && g_mode == 'm') { yyrestart(refill(g_argv[k])); return 0; }
     if (k >= 0) { std::ifstream *f = open_stream(g_argv[k]); if (!*f) exit(2); switch_streams(f, 0); return 0; }
     return 1;
 }
@@ -208,7 +212,7 @@ int main(int argc, char **argv)
     int v, k;
     g_argc = argc; g_argv = argv; g_next = 2; g_mode = argv[1][1];
     k = next_file();
-    std::ifstream *in = open_stream(k >= 0 ? argv[k] : "/dev/null");
+    std::istream *in = (g_mode == 'm' && k >= 0) ? refill(argv[k]) : open_stream(k >= 0 ? argv[k] : "/dev/null");
     if (!*in) return 2;
     yyFlexLexer lexer(in, 0);
     for (;;) {
@@ -216,6 +220,7 @@ int main(int argc, char **argv)
         printf("R 0\n");
         if (!next_session()) break;
         k = next_file();
+        if (g_mode == 'm' && k >= 0) { lexer.yyrestart(refill(argv[k])); continue; }
         std::ifstream *f = open_stream(k >= 0 ? argv[k] : "/dev/null"); if (!*f) return 2;
         if (g_mode == 'r') lexer.yyrestart(f); else lexer.switch_streams(f, 0);
     }
@@ -282,7 +287,7 @@ def make_stream_spec(prog, acts, eofs, rng, backend, lineno_on, extra_options=No
     out = ["%option " + " ".join(o for o in opts if o)]
     top = TOP
     if backend == 'cxx':
-        top += "#include <fstream>\n"
+        top += "#include <fstream>\n#include <sstream>\n#include <string>\n"
     a = API[backend]
     ln = a['lineno'] if (lineno_on or backend == 'nr') else "1"
     bol = a['atbol'] if bol_obs else "-1"
